@@ -40,7 +40,10 @@ from lib import portfolio
 
 EVENTS: list = []
 _LOCK = threading.Lock()
-_KEEP: list = []  # stored core list objects (kept so that id() stays unique within one contract run)
+_KEEP: list = []  # stored core list objects (kept for the life of the process so that id() stays unique)
+_REGISTRY: dict = {}  # id(core object) -> store record, for the life of the process: a core that leaks into a LATER
+#                       function / contract (it never does on the unchanged tree) is still checked against what it
+#                       denoted when it was stored
 _STATE = {"installed": False, "policy": "all", "gc_every": 0, "nchecks": 0, "downgraded": 0, "orig": {}, "rng": None,
           "gc_calls": 0}
 
@@ -179,7 +182,6 @@ def uninstall():
 def take_events() -> list:
     ev = list(EVENTS)
     EVENTS.clear()
-    _KEEP.clear()
     return ev
 
 
@@ -198,6 +200,17 @@ class Denot:
     def __init__(self, smt: str, ids):
         self.hard, self.F, self.err = [], {}, None
         idset = {str(i) for i in ids}
+        if "declare-fun f_evm_" in smt:
+            # halmos answers such a query only after refinement (solve_end_to_end); the monitor decides the same
+            # formulas, i.e. with halmos' own refinement applied (f_evm_bvmul/bvudiv/... defined, not uninterpreted)
+            try:
+                import halmos.solve as hs
+                from halmos.sevm import SMTQuery
+
+                smt = hs.refine(SMTQuery(smt, list(ids))).smtlib
+            except Exception as e:  # noqa: BLE001
+                self.err = f"refine failed: {e!r}"[:200]
+                return
         try:
             vec = z3.parse_smt2_string(smt)
         except z3.Z3Exception as e:
@@ -304,8 +317,8 @@ def analyze(events, rec, tag: str, key_sfx: str, timeout=20.0, trust_solver_core
     for e in herr[:3]:
         rec.harness_error(f"{tag}: monitor hook failed: {e['msg']}")
 
-    # store records: core object id -> record
-    stores: dict = {}
+    # store records: core object id -> record (process-wide registry, see _REGISTRY)
+    stores = _REGISTRY
     sig_of: dict = {}
     for e in events:
         if e["k"] == "begin":
@@ -333,7 +346,7 @@ def analyze(events, rec, tag: str, key_sfx: str, timeout=20.0, trust_solver_core
             summ["stores"] += 1
             summ["core_sizes"].append(len(core))
             stores[cid] = {"core": core, "smt": e["smt"], "ids": e["ids"], "raw": e["raw"], "fn": fn,
-                           "path_id": e["path_id"]}
+                           "path_id": e["path_id"], "fn_ctx": e["ctx"], "run": tag}
             if not core:
                 pending.append({"cls": "empty-core", "fn": fn, "core": core, "smt": e["smt"], "ids": e["ids"],
                                 "raw": e["raw"]})
@@ -376,6 +389,8 @@ def analyze(events, rec, tag: str, key_sfx: str, timeout=20.0, trust_solver_core
             st = stores.get(cid)
             if st is None or not core:
                 continue
+            if st["fn_ctx"] != e["ctx"]:
+                summ["leaked_cores_visible"] = summ.get("leaked_cores_visible", 0) + 1
             shared = [i for i in core if i in idset]
             if not shared:
                 continue
@@ -466,41 +481,54 @@ def analyze(events, rec, tag: str, key_sfx: str, timeout=20.0, trust_solver_core
 # ---------------------------------------------------------------------------------------------------------------
 # replay on the real code
 # ---------------------------------------------------------------------------------------------------------------
-def crafted_query(smt: str, ids, K):
-    """SMTQuery made of the hard assertions of `smt` and the tracked assertions for the ids in K only (same ids)"""
+def crafted_query(smt: str, ids, K, fallback=None):
+    """SMTQuery made of the hard assertions of `smt` and the tracked assertions for the ids in K only (same ids).
+    `fallback` = (smt, ids) of the query the core was stored from: ids of K that do not occur in `smt` keep the formula
+    they had there (used for a partially re-bound core)."""
     from halmos.sevm import SMTQuery
 
     d = Denot(smt, ids)
+    fb = Denot(*fallback) if fallback else None
     s = z3.Solver()
     for h in d.hard:
         s.add(h)
+    used = []
     for i in K:
-        if i in d.F:
-            s.assert_and_track(d.F[i], str(i))
+        f = d.F.get(i)
+        if f is None and fb is not None:
+            f = fb.F.get(i)
+        if f is not None:
+            s.assert_and_track(f, str(i))
+            used.append(str(i))
     text = s.to_smt2().replace("(check-sat)", "")
-    return SMTQuery(text, [str(i) for i in K if i in d.F])
+    return SMTQuery(text, used)
 
 
 def real_solve(query, cores, solver="yices", **over):
-    """the real (unwrapped) solve_end_to_end on `query` with `cores` in the cache; returns (result string, solver was
-    invoked)"""
+    """cores is a list: the real (unwrapped) solve_end_to_end on `query` with exactly `cores` in the cache;
+    cores is None: ground truth -- the real solve_end_to_end with cache_solver off and an explicitly empty core list.
+    Returns (result string, solver was invoked)"""
     import tempfile
 
     import halmos.solve as hs
     from lib import e2e
 
-    args = e2e.mk_args(cache_solver=True, solver=solver, **over)
+    args = e2e.mk_args(cache_solver=cores is not None, solver=solver, **over)
     td = tempfile.TemporaryDirectory(prefix="c16replay-")
-    sc = hs.SolvingContext(dump_dir=td)
+    # the cache content is passed explicitly (not through the field's default factory)
+    sc = hs.SolvingContext(dump_dir=td, unsat_cores=[list(c) for c in (cores or [])])
     try:
-        sc.unsat_cores.extend([list(c) for c in cores])
         pc = hs.PathContext(args=args, path_id=0, solving_ctx=sc, query=query)
-        cur = hs.check_unsat_cores
-        hs.check_unsat_cores = _STATE["orig"].get("check_unsat_cores", cur)
-        try:
+        if cores is None:
+            # cache off, explicitly empty core list; solve_end_to_end so that refinement is applied as in a real run
             out = hs.solve_end_to_end(pc)
-        finally:
-            hs.check_unsat_cores = cur
+        else:
+            cur = hs.check_unsat_cores
+            hs.check_unsat_cores = _STATE["orig"].get("check_unsat_cores", cur)
+            try:
+                out = hs.solve_end_to_end(pc)
+            finally:
+                hs.check_unsat_cores = cur
         invoked = os.path.exists(str(pc.dump_file) + ".out")
         return str(out.result), invoked
     finally:
@@ -529,16 +557,21 @@ def replay_crafted(p: dict, solver="yices") -> dict:
         q = SMTQuery("(declare-fun |1| () Bool)\n(declare-fun c16_x () (_ BitVec 8))\n"
                      "(assert (=> |1| (= c16_x #x07)))\n", ["1"])
         a, inv_a = real_solve(q, [[]], solver)
-        b, inv_b = real_solve(q, [], solver)
+        b, inv_b = real_solve(q, None, solver)
         w.update(with_cache=a, solver_invoked_with_cache=inv_a, without=b, stored_core=p.get("core"),
                  raw=(p.get("raw") or "")[-300:])
         w["reproduced"] = a == "unsat" and b == "sat"
         return w
     K = p["K"]
     core = p.get("core") or K
-    q = crafted_query(p["smt"], p["ids"], K)
+    if cls == "id-stable":
+        # the core under its current denotation: re-bound ids as in the observed query, the others as stored
+        q = crafted_query(p["smt"], p["ids"], core, fallback=(p["store_smt"], p["store_ids"]))
+        w["partial_rebinding"] = len(K) < len(core)
+    else:
+        q = crafted_query(p["smt"], p["ids"], K)
     a, inv_a = real_solve(q, [core] if cls != "hit-unsat" else p.get("cores", [core]), solver)
-    b, inv_b = real_solve(q, [], solver)
+    b, inv_b = real_solve(q, None, solver)
     w.update(core=core, query_ids=K, with_cache=a, solver_invoked_with_cache=inv_a, without=b,
              crafted_query=q.smtlib[-1500:])
     for k in ("changed", "then", "now", "model", "independent", "solver_fault"):
